@@ -96,6 +96,7 @@ func H_C07_collapse_length() {
 	n := sxParam("n", 4)
 	t := genTree(n, 2, false)
 	decorate(t, lenAll, supAny)
+	c07prep(t)
 	theta := sxLen("theta")
 	before := c07snapshot(t)
 	names := tipNamesString(t)
@@ -111,6 +112,7 @@ func H_C07_collapse_support() {
 	n := sxParam("n", 4)
 	t := genTree(n, 2, false)
 	decorate(t, lenAll, supAny)
+	c07prep(t)
 	theta := sxLen("theta")
 	before := c07snapshot(t)
 	names := tipNamesString(t)
@@ -187,4 +189,13 @@ func H_C07_resolve() {
 		}
 	}
 	sxReach("checked")
+}
+
+// c07prep: the tree may have been re-rooted before (branches re-oriented, the
+// parent no longer the first neighbour of every node)
+func c07prep(t *tree.Tree) {
+	if sxChoose("rerootedfirst", 2) == 1 && !t.Rooted() {
+		in := innerNodes(t)
+		sxAssert(t.Reroot(in[sxChoose("prepnewroot", len(in))]) == nil, "Reroot succeeds")
+	}
 }
